@@ -145,6 +145,7 @@ def gen(rng, index, tier):
         kn[key] = pkn[key]
     kn["k"] = rng.choice([0, 0, 2, 10])
     kn["genobjects"] = False
+    kn["hidden_builtins"] = rng.random() < 0.4
     if len(spec["modules"]) > 1 and rng.random() < 0.35:
         # one or two plain `import pkg.sibling` dependencies (importer later in load order than the imported module)
         spec = dict(spec)
@@ -442,6 +443,8 @@ def execute(plan):
             probes["query returned stale rows"] += 1
         if stale and good:
             probes["stale and valid rows mixed"] += 1
+        if any('"dict_keys"' in (x or "") or '"dict_values"' in (x or "") or '_iterator"' in (x or "") for r in stale for x in r[2:]):
+            probes["stale row naming a hidden builtin class (dict_keys, list_iterator, ...)"] += 1
         if stale and P.broken_modules(spec):
             probes["stale rows while a module that still exists imports a removed sibling"] += 1
         if (exc2 is not None or (rc2 not in (0, None))) and good:
